@@ -3,7 +3,7 @@
 # scratch worktree /tmp/wt/fix: the demo passes on the clean tree, fails with patch.diff, and the 407-test baseline still
 # passes with patch.diff (demo removed). Writes /verif/seeded/<seed-id>/meta.json.
 set -uo pipefail
-SID="$1"; PROP="$2"; D=/verif/seeded/$SID; WT=/tmp/wt/fix
+SID="$1"; PROP="$2"; D=/verif/seeded/$SID; WT="${WT:-/tmp/wt/fix}"
 cd "$WT" || exit 2
 git checkout -q --detach main; git reset -q --hard main; git clean -fdq -e target
 DEMO=$(basename "$D"/demo_*.rs .rs)
